@@ -214,7 +214,7 @@ CLAIMED.update({
     "C16": dict(
         engine="IndParams", category="model_checking",
         text=("TLC enumerates every container (5 identifier sequences incl. all-numeric ids in non-canonical form, 1-2 parameters out of 3 names x "
-              "4 shapes incl. 12 components) x 4 conversion paths (table, tensor, csv, json) of specs/IndParams.tla and checks Lossless on the "
+              "4 shapes incl. 12 components) x 5 conversion paths (table, tensor, csv, json, json with sorted keys) of specs/IndParams.tla and checks Lossless on the "
               "intended design and LosslessExceptNamed on the as-built one (two named deviations); every case is built as a "
               "real IndividualParameters with seeded values, converted there and back, and TLC compares status, names, shapes, "
               "identifiers and value equality with Expected (IndParamsTrace.tla), checks the addition rules (11 refusals, 1 "
